@@ -78,9 +78,9 @@ Theorem C09_drop_suppresses_forwarding :
   (forall cf ps connected r1 l2 l3 rx,
      chain HCR ARequest handle_client_request ps r1 l2 = (l3, Dropped rx) ->
      after_connect cf ps connected r1 l2 = (l3, Continue (mkState rx connected None)))
-  /\ (forall cf ps st pr buf l l1 rx,
+  /\ (forall cf ps st pr l l1 rx,
      chain HCR ARequest handle_client_request ps pr l = (l1, Dropped rx) ->
-     run_later cf ps st pr buf l = (l1, Continue (mkState (st_request st) true (Some (rx, buf))), None)
+     run_later cf ps st pr l = (l1, Continue (mkState (st_request st) true (Some rx)), None)
      /\ upstream_queue l1 = upstream_queue l).
 Proof. exact (conj drop_first_request drop_later_request). Qed.
 Print Assumptions C09_drop_suppresses_forwarding.
@@ -105,9 +105,9 @@ Theorem C09_reject_exact_hcr :
      chain HCR ARequest handle_client_request ps r1 l2 = (l3, Rejected rx resp) ->
      after_connect cf ps connected r1 l2 = (l3, Failed (mkState rx connected None) (FReject resp))
      /\ upstream_queue l3 = upstream_queue l2 /\ client_queue l3 = client_queue l2)
-  /\ (forall cf ps st pr buf l l1 rx resp,
+  /\ (forall cf ps st pr l l1 rx resp,
      chain HCR ARequest handle_client_request ps pr l = (l1, Rejected rx resp) ->
-     run_later cf ps st pr buf l = (l1, Failed (mkState (st_request st) true (Some (rx, buf))) (FReject resp), None)
+     run_later cf ps st pr l = (l1, Failed (mkState (st_request st) true (Some rx)) (FReject resp), None)
      /\ upstream_queue l1 = upstream_queue l /\ client_queue l1 = client_queue l).
 Proof. exact (conj reject_first_request reject_later_request). Qed.
 Print Assumptions C09_reject_exact_hcr.
@@ -116,7 +116,8 @@ Print Assumptions C09_reject_exact_hcr.
    every plugin's on_upstream_connection_close runs exactly once in configured order, the
    on_access_log chain runs exactly once (a prefix of the plugins, the default log line at most once
    and only after all plugins were asked), the client socket is closed once; otherwise no callback
-   runs; the callbacks precede conn.shutdown(SHUT_WR) on the client socket, whose outcome (ENOTCONN after a
+   runs.  This holds in threaded mode too, where shutdown() first flushes pending output ([cf_final_flush]; every
+   OSError of that flush is tolerated since fix faabfc0); the callbacks precede conn.shutdown(SHUT_WR) on the client socket, whose outcome (ENOTCONN after a
    peer reset, any OSError) therefore cannot affect them.  Premises: lifecycle hooks do not raise and keep the keys the default log line formats; the
    executor calls shutdown() exactly once (C05/C10). *)
 Theorem C09_lifecycle_once : forall cf ps c0 steps,
@@ -129,7 +130,7 @@ Theorem C09_lifecycle_once : forall cf ps c0 steps,
                   /\ (length (filter is_access_log l) = 1%nat -> n = length ps))
     /\ length (filter is_client_close l) = 1%nat
   else
-    l = [ClientShutdown; ClientClose].
+    l = (if cf_final_flush cf then [ClientFlush] else []) ++ [ClientShutdown; ClientClose].
 Proof. exact lifecycle_once. Qed.
 Print Assumptions C09_lifecycle_once.
 
@@ -138,7 +139,9 @@ Theorem C09_lifecycle_shape : forall cf ps c0 steps,
   lifecycle_total ps -> keeps_keys ps -> (forall t, ctx_ok t c0) ->
   existsb is_first steps = true ->
   exists l0 st dOAL e,
-    run_steps cf ps None false steps [] = (l0, Some st)
+    delta_ok q_pre [] l0
+    /\ (exists lr, run_steps cf ps None false steps [] = (lr, Some st)
+                  /\ l0 = if cf_final_flush cf then lr ++ [ClientFlush] else lr)
     /\ chain OAL ACtx on_access_log ps c0 l0 = (l0 ++ dOAL, e)
     /\ run_conn cf ps c0 steps =
          l0 ++ dOAL
@@ -156,10 +159,10 @@ Proof. exact run_steps_pre. Qed.
 Print Assumptions C09_no_lifecycle_before_shutdown.
 
 (* ------------------------------------------------------------------ non-vacuity and recorded examples *)
-Definition ex_cf : config := mkConfig (bs "proxy.py v0") [].
+Definition ex_cf : config := mkConfig (bs "proxy.py v0") [] false.
 Definition ex_req : request :=
   mkRequest (bs "GET") (Some (bs "h.example")) (Some 80%Z) (Some (bs "/")) HTTP_1_1
-            (headers_of_lines [bs "Host: h.example"]) None false.
+            (headers_of_lines [bs "Host: h.example"]) None false [].
 Definition ex_c0 : ctx := map (fun k => (k, @nil N)) (required_keys false).
 
 (* three plugins: the first marks the request, the second rewrites and later drops upstream data,
